@@ -16,6 +16,38 @@ FRAME_MAGIC = [4, 34, 77, 24]
 LEGACY_MAGIC = [2, 33, 76, 24]
 
 
+def xxh32(data, seed=0):
+    """XXH32 (transcribed from spec/XXH32.tla; the header checksums built with it are re-validated by the code itself: a
+    wrong one just gives a header the Reader rejects, which the case then reports as such)"""
+    P1, P2, P3, P4, P5, M = 2654435761, 2246822519, 3266489917, 668265263, 374761393, 0xFFFFFFFF
+    rotl = lambda x, r: ((x << r) | (x >> (32 - r))) & M
+    n, i = len(data), 0
+    if n >= 16:
+        v = [(seed + P1 + P2) & M, (seed + P2) & M, seed & M, (seed - P1) & M]
+        while i + 16 <= n:
+            for k in range(4):
+                w = int.from_bytes(bytes(data[i + 4 * k:i + 4 * k + 4]), "little")
+                v[k] = (rotl((v[k] + w * P2) & M, 13) * P1) & M
+            i += 16
+        h = (rotl(v[0], 1) + rotl(v[1], 7) + rotl(v[2], 12) + rotl(v[3], 18)) & M
+    else:
+        h = (seed + P5) & M
+    h = (h + n) & M
+    while i + 4 <= n:
+        w = int.from_bytes(bytes(data[i:i + 4]), "little")
+        h = (rotl((h + w * P3) & M, 17) * P4) & M
+        i += 4
+    while i < n:
+        h = (rotl((h + data[i] * P5) & M, 11) * P1) & M
+        i += 1
+    h ^= h >> 15
+    h = (h * P2) & M
+    h ^= h >> 13
+    h = (h * P3) & M
+    h ^= h >> 16
+    return h
+
+
 def le32(n):
     return [n & 255, (n >> 8) & 255, (n >> 16) & 255, (n >> 24) & 255]
 
@@ -256,6 +288,16 @@ def c07_cases(ctx, bases, rnd):
     for cs in (0, 1 << 63, (1 << 64) - 1):
         desc = [0x68, 0x40] + [(cs >> (8 * k)) & 255 for k in range(8)]
         add([{"bytes": FRAME_MAGIC + desc + [0]}], "content-size-bad-hc")
+    # a hostile content size behind a VALID header checksum, a few bytes of real data: nothing may be sized from the field
+    for cs in (0, 5, 6, 1 << 26, 1 << 31, (1 << 32) + 5, 1 << 40, (1 << 63) - 1, 1 << 63, (1 << 64) - 1):
+        for flg in (0x68, 0x6C):
+            desc = [flg, 0x40] + [(cs >> (8 * k)) & 255 for k in range(8)]
+            desc.append((xxh32(desc) >> 8) & 255)
+            data = [104, 101, 108, 108, 111]
+            body = le32(0x80000000 | 5) + data + [0, 0, 0, 0] + (le32(xxh32(data)) if flg & 4 else [])
+            for conc in (1, 4):
+                for mode in ("read", "writeto"):
+                    add([{"bytes": FRAME_MAGIC + desc + body}], "content-size-valid-hc", cfg={"conc": conc, "mode": mode, "bufs": [4096]})
     reps = (1, 2, 1000, 100000) + (() if q else (2000000,))
     big = 3000000 if q else 20000000
     for n in tuple(reps) + (big,):
